@@ -3,6 +3,7 @@
    association list; goroutine completion order = an arbitrary order of task
    indices.  Only statements; every proof is [exact <lemma>]. *)
 From AL Require Import Base.AList Base.StrOrder Out.StableSort Out.Determinism.
+From AL Require Graph.Dfs Graph.Needs Graph.NeedsProofs Graph.NeedsOrder.
 
 (* the final sort.Stable by position is a function of the per-position
    sub-sequences only: every re-ordering that keeps same-position diagnostics
@@ -79,6 +80,27 @@ Theorem C02_runner_label_conflict : forall disjoint c c',
   Permutation c c' -> NoDup (map fst c) -> first_conflict disjoint c = first_conflict disjoint c'.
 Proof. exact first_conflict_det. Qed.
 Print Assumptions C02_runner_label_conflict.
+
+(* rule_job_needs.go, on the model of the whole rule (Graph/Needs.v): the
+   cycle search starts from the nodes in position order, so the edge found,
+   the reconstructed cycle and its rendering are the same for every iteration
+   order of rule.nodes; the "does not exist" diagnostics, emitted in map
+   order, coincide after the final sort *)
+Theorem C02_needs_cycle_search_order_indep : forall m ord ord',
+  NeedsOrder.distinct_pos m -> Permutation ord (keys m) -> Permutation ord' (keys m) ->
+  Needs.detect_needs m ord = Needs.detect_needs m ord'.
+Proof. exact NeedsOrder.detect_needs_order_indep. Qed.
+Print Assumptions C02_needs_cycle_search_order_indep.
+
+Theorem C02_needs_rule_order_indep : forall jobs ord ord',
+  NeedsOrder.distinct_pos (Needs.table jobs) ->
+  Permutation ord (keys (Needs.table jobs)) -> Permutation ord' (keys (Needs.table jobs)) ->
+  exists ds ds', Needs.run jobs ord = Dfs.Done ds /\ Needs.run jobs ord' = Dfs.Done ds' /\
+    Permutation ds ds' /\
+    filter NeedsProofs.is_cycle_diag ds = filter NeedsProofs.is_cycle_diag ds' /\
+    NeedsOrder.final_needs ds = NeedsOrder.final_needs ds'.
+Proof. exact NeedsOrder.run_order_indep. Qed.
+Print Assumptions C02_needs_rule_order_indep.
 
 (* LintFiles: results are assembled by slot, independent of completion order *)
 Theorem C02_multi_file_order_indep : forall (A : Type) (results : list A) (order : list nat),
